@@ -39,7 +39,10 @@ type world struct {
 	kind     storage.NeedleMapKind
 	store    *storage.Store
 	vid      needle.VolumeId
-	base     uint64
+	base     uint64 // cursor of the ascending (newest) key region
+	late     uint64 // cursor of the late region: keys far below the newest ones (out-of-order arrivals)
+	cur      uint64 // base of the running sequence
+	written  int    // distinct keys written on this volume
 	readonly bool
 	model    map[uint64]*mstate
 	nseq     int
@@ -63,6 +66,13 @@ func (w *world) freshVolume() {
 	w.readonly = false
 	w.model = make(map[uint64]*mstate)
 	w.nseq = 0
+	// Every third sequence works on keys of the late region, which lies below everything
+	// written so far on this volume: once a compact-map section holds more than 128 entries
+	// such keys live in its overflow list (in-memory needle map), a path ascending key
+	// allocation never reaches.
+	w.late = w.base + 16
+	w.base += 1 << 16
+	w.written = 0
 }
 
 func kindName(k storage.NeedleMapKind) string {
@@ -95,7 +105,7 @@ func inputClass(s *mstate, b *lib.BlobSpec) string {
 func (w *world) apply(o op, hist []op) bool {
 	r := w.r
 	ok := true
-	key := w.base + uint64(o.K)
+	key := w.cur + uint64(o.K)
 	viol := func(sig lib.Sig, msg string, extra interface{}) {
 		sig["map"] = kindName(w.kind)
 		if r.Violation(sig, map[string]interface{}{"msg": msg, "history": hist, "op": o, "extra": extra, "map": kindName(w.kind)}) {
@@ -132,6 +142,9 @@ func (w *world) apply(o op, hist []op) bool {
 			}
 			if s.kind == 1 && s.cookie != o.Cookie && len(s.blob.Data) == 0 {
 				viol(lib.Sig{"op": "write", "class": "cookie-mismatch-accepted", "input": "empty-payload"}, "overwrite of an empty blob with a different cookie accepted", nil)
+			}
+			if s.kind == 0 {
+				w.written++
 			}
 			s.kind, s.cookie, s.blob, s.lm = 1, o.Cookie, b, lm&((1<<40)-1)
 			s.reopened = false
@@ -181,7 +194,7 @@ func (w *world) apply(o op, hist []op) bool {
 // checkKey reads one key and compares it with the model.
 func (w *world) checkKey(k int, hist []op, after string) bool {
 	r := w.r
-	key := w.base + uint64(k)
+	key := w.cur + uint64(k)
 	s := w.get(key)
 	n := &needle.Needle{Id: types.NeedleId(key), Cookie: 0xdeadbeef}
 	count, err := w.store.ReadVolumeNeedle(w.vid, n, nil)
@@ -239,7 +252,17 @@ func (w *world) runSeq(ops []op, nkeys int) {
 	if w.nseq > 400 {
 		w.freshVolume()
 	}
-	w.base += 16
+	if w.nseq%3 == 1 {
+		w.late += 16
+		w.cur = w.late
+		w.r.Count("sequences_on_late_keys", 1)
+		if w.written > 130 {
+			w.r.Count("sequences_on_late_keys_with_130plus_keys_before", 1)
+		}
+	} else {
+		w.base += 16
+		w.cur = w.base
+	}
 	if w.readonly {
 		_ = w.store.MarkVolumeWritable(w.vid)
 		w.readonly = false
